@@ -23,6 +23,8 @@ pub enum BOp {
     /// keep a copy of the bar's current style (pb.style()) / install the copy kept last (no-op without one)
     StyleSave,
     StyleRestore,
+    /// MultiProgress::remove(bar): not a position or length update (handled by the engines that have a MultiProgress)
+    MpRemove,
     TabWidth(usize),
     Println(&'static str),
     SuspendEmpty,
@@ -90,7 +92,7 @@ pub fn apply(pb: &ProgressBar, op: &BOp) {
             for _ in pb.wrap_iter(0..3) {}
         }
         // handled by the engines that keep the copy (C16)
-        BOp::StyleSave | BOp::StyleRestore => {}
+        BOp::StyleSave | BOp::StyleRestore | BOp::MpRemove => {}
         BOp::TabWidth(w) => pb.set_tab_width(*w),
         BOp::Println(t) => pb.println(*t),
         BOp::SuspendEmpty => pb.suspend(|| ()),
@@ -210,7 +212,7 @@ impl RefState {
                 let f = self.on_finish;
                 self.fin(f);
             }
-            BOp::StyleSave | BOp::StyleRestore => {}
+            BOp::StyleSave | BOp::StyleRestore | BOp::MpRemove => {}
             BOp::WrapIter3 => {
                 self.pos = self.pos.wrapping_add(3);
                 // exhausting the iterator finishes a bar that is not finished yet
@@ -240,6 +242,6 @@ impl RefState {
     }
 
     pub fn draws(op: &BOp) -> bool {
-        !matches!(op, BOp::Style(_) | BOp::StyleRoundTrip | BOp::ResetEta | BOp::ResetElapsed | BOp::StyleSave | BOp::StyleRestore)
+        !matches!(op, BOp::Style(_) | BOp::StyleRoundTrip | BOp::ResetEta | BOp::ResetElapsed | BOp::StyleSave | BOp::StyleRestore | BOp::MpRemove)
     }
 }
